@@ -126,6 +126,10 @@ def gen_map_spec(rng, game, max_rows=5, allow_empty=True):
             if name not in ("hits", "holds") and rng.random() < 0.5:
                 n = 0
         rows = gen_rows(rng, props, n)
+        if game == "sm":
+            for r in rows:
+                if "column" in r:
+                    r["column"] %= 4          # the default chart type (dance-single) has 4 columns
         if name == "bpms" and rows:
             # distinct tempo times, first at or before everything else is NOT required here
             seen = set()
